@@ -15,4 +15,6 @@ func init() {
 	mut("C04", "copier-skips-signal-on-error", "proxy.go", "\t\t\tlog.Errorf(\"martian: failed to copy CONNECT tunnel: %v\", err)\n\t\t}\n", "\t\t\tlog.Errorf(\"martian: failed to copy CONNECT tunnel: %v\", err)\n\t\t\treturn\n\t\t}\n", "C04.R2", "signals completion")
 	mut("C04", "half-close-skipped-on-error", "proxy.go", "\t\t\tlog.Errorf(\"martian: failed to copy CONNECT tunnel: %v\", err)\n\t\t}\n", "\t\t\tlog.Errorf(\"martian: failed to copy CONNECT tunnel: %v\", err)\n\t\t\tdonec <- true\n\t\t\treturn\n\t\t}\n", "C04.R5", "")
 	twin("C04", "signal-deferred", "proxy.go", "\tcopySync := func(w io.Writer, r io.Reader, donec chan<- bool) {\n\t\tif _, err := io.Copy(w, r); err != nil && err != io.EOF {\n\t\t\tlog.Errorf(\"martian: failed to copy CONNECT tunnel: %v\", err)\n\t\t}\n", "\tcopySync := func(w io.Writer, r io.Reader, done chan<- bool) {\n\t\tdonec := make(chan bool, 1)\n\t\tdefer func() { done <- true }()\n\t\tif _, err := io.Copy(w, r); err != nil && err != io.EOF {\n\t\t\tlog.Errorf(\"martian: failed to copy CONNECT tunnel: %v\", err)\n\t\t}\n")
+	mut("C04", "full-close-although-half-close-possible", "proxy.go", "\t\tif cw, ok := w.(interface{ CloseWrite() error }); ok {\n", "\t\tif cw, ok := w.(interface{ CloseWrite() error }); !ok {\n", "C04.R5", "half-closed")
+	mut("C04", "setdial-ignores-argument", "proxy.go", "\t\tc, e := dial(a, b)\n", "\t\tc, e := net.Dial(a, b)\n", "C04.R3", "SetDial stores its argument")
 }
